@@ -85,8 +85,8 @@ def run(ctx):
             ty = fn.locals[dl]["ty"]
             if ty.startswith("core::result::Result<"):
                 n += 1
-                # a use by a `drop` terminator does not count
-                real = False
+                # a use by a `drop` terminator does not count; a Result written to the return place is handed to the caller
+                real = dl == 0
                 for bl in fn.blocks:
                     for st in bl.stmts:
                         if _mentions(st, dl):
@@ -124,9 +124,9 @@ def run(ctx):
         verdict = None
         if v0 is None:
             verdict = "no value"
-        elif v0[0] == "len" or (is_call(v0) and callee_name(v0[1]) == "len"):
-            verdict = "ok: a length"
-            seq.append(("len", v0))
+        elif lenlike(v0) is not None:
+            verdict = "ok: a length" if lenlike(v0)[0] != "int" else "ok: a constant length field"
+            seq.append(("len", lenlike(v0)))
         elif is_call(v0) and callee_name(v0[1]) == "encrypt_dek":
             verdict = "ok: wrapped DEK returned by the provider"
             seq.append(("wrapped", v0))
@@ -247,6 +247,21 @@ def run(ctx):
         ctx.check("acceptance-covers-production", "minimum-blob-length", smallest is not None and lo <= smallest,
                   "decrypt accepts blobs from %s bytes; the smallest blob encrypt can emit is %s" % (lo, smallest),
                   "decrypt_seed refuses blobs shorter than %s bytes, but encrypt_seed emits %s bytes for a 16-byte wrapped key and a 32-byte seed" % (lo, smallest), dec.loc(first))
+
+
+def lenlike(t):
+    """A length (or constant) possibly converted between integer types: `x.len() as u16`, `u16::try_from(x.len())?`, `N as u16`."""
+    for _ in range(6):
+        t = uncast(values.strip_payload(t))
+        if isinstance(t, tuple) and t and t[0] in ("len", "int"):
+            return t
+        if is_call(t) and callee_name(t[1]) == "len":
+            return t
+        if is_call(t) and callee_name(t[1]) in ("try_from", "try_into", "from", "into", "map_err", "unwrap", "expect", "unwrap_or", "min") and t[2]:
+            t = t[2][0]
+            continue
+        return None
+    return None
 
 
 def _mentions(x, l):
